@@ -106,8 +106,11 @@ class DynAttr:
             if default is None:
                 it.raise_('AttributeError')
             return default
-        ty = self.world.dyn_type(obj.ty, s, it)
-        return SV(z3.Select(z3.Select(self.val_arr(it), V.oid(obj.t)), s), ty)
+        dt = self.world.dyn_type(obj.ty, s, it)
+        if dt is not None:
+            _, key, param, suffix = dt
+            return PV('abstract', {'contract': key, 'bound': {'self': obj, param: SV(V.StrV(suffix))}})
+        return SV(z3.Select(z3.Select(self.val_arr(it), V.oid(obj.t)), s), None)
 
     def setattr(self, it, obj, name, v):
         cn = self.const_name(name)
@@ -147,6 +150,7 @@ class World:
         self.spec_consts = {}
         self.dispatch_fallback = {}
         self.uf_decls = {}
+        self.ghost_names = set()
         hier = extract.exception_hierarchy(self.src)
         for name, bases in hier.items():
             self.cids.add(name, bases)
@@ -167,6 +171,7 @@ class World:
         for k, v in vars(mod).items():
             if k.isupper() and isinstance(v, (int, float, str)) and not isinstance(v, bool) and k != 'CONTEXT_FILE':
                 self.spec_consts[k] = v
+        self.ghost_names |= set(getattr(mod, 'GHOSTS', []))
         self.dispatched |= set(getattr(mod, 'DISPATCHED', []))
         self.dispatch_fallback.update(getattr(mod, 'DISPATCH_FALLBACK', {}))
         for uname, sig in getattr(mod, 'UFS', {}).items():
@@ -285,6 +290,15 @@ class World:
             raise Unsupported(f'write to undeclared field {cls}.{name}')
 
     def dyn_type(self, ty, s, it):
+        """static type of a dynamically named attribute: DYN_TYPES[class] = [(prefix, contract key, bound param)]"""
+        for cls in (self.mro(ty) if ty in self.classes else []):
+            for prefix, key, param in self.dyn_types.get(cls, []):
+                ss = simp(s)
+                if z3.is_app(ss) and ss.decl().kind() == z3.Z3_OP_SEQ_CONCAT and z3.is_string_value(ss.arg(0)) \
+                        and ss.arg(0).as_string() == prefix and ss.num_args() == 2:
+                    return ('dyn', key, param, ss.arg(1))
+                if z3.is_string_value(ss) and ss.as_string().startswith(prefix):
+                    return ('dyn', key, param, z3.StringVal(ss.as_string()[len(prefix):]))
         return None
 
     # ------------------------------------------------------- name resolution
@@ -299,6 +313,8 @@ class World:
             return PV('old', None)
         if name in self.uf_decls:
             return PV('uf', name)
+        if name in self.ghost_names:
+            return SV(V.ListV(self.ghost_seq(it, name)))
         if name == 'inv':
             return PV('inv', None)
         if name in Builtins.NAMES:
@@ -422,6 +438,11 @@ class World:
         finally:
             it.mode = saved
             it.frames.pop()
+
+    def ghost_seq(self, it, name):
+        if name not in it.ghost:
+            it.ghost[name] = z3.Const(f'in!ghost!{name}', vals.SeqVal)
+        return it.ghost[name]
 
     def uf(self, name, sorts):
         key = (name, tuple(str(s) for s in sorts))
@@ -602,15 +623,10 @@ class World:
                 continue
             hs = [vals.truthy(self.eval_spec(it, text, env, ctx).t) for text in lem.get('requires', [])]
             lemma_hyps.append((lname, lem, z3.And(*hs) if hs else z3.BoolVal(True)))
+        for g in self.ghost_names:
+            self.ghost_seq(it, g)
         entry_heap = dict(it.heap)
         entry_ghost = dict(it.ghost)
-        for f in c['modifies']:
-            if f.startswith('self.'):
-                it.havoc_field(f[5:], only_obj=env['self'].t)
-            else:
-                it.havoc_field(f)
-        for g in c.get('ghost_modifies', []):
-            it.ghost[g] = it.fresh('g_' + g, Val)
         can_raise = c['raises'] != 'never'
         can_return = c.get('returns', True)
         opts = []
@@ -619,6 +635,14 @@ class World:
         if can_raise:
             opts.append('exc')
         k = it.choose([z3.BoolVal(True)] * len(opts), f'outcome of {c["key"]}@{line}')
+        frame = c['modifies'] if opts[k] == 'ret' else c.get('raises_modifies', c['modifies'])
+        for f in frame:
+            if f.startswith('self.'):
+                it.havoc_field(f[5:], only_obj=env['self'].t)
+            else:
+                it.havoc_field(f)
+        for g in (c.get('ghost_modifies', []) if opts[k] == 'ret' else c.get('raises_ghost_modifies', c.get('ghost_modifies', []))):
+            it.ghost[g] = it.fresh('g_' + g, vals.SeqVal)
         env = dict(env)
         env['old!heap'] = (entry_heap, entry_ghost)
         if opts[k] == 'ret':
@@ -769,8 +793,8 @@ class World:
                 it.inputs['ghost.' + gn] = env[gn].t
             it.no_float_overflow = bool(c.get('assume_no_float_overflow'))
             it.ghost['alloc!entry'] = it.alloc_mark()
-            for g, sort in c.get('ghost', {}).items():
-                it.ghost[g] = z3.Const(f'in!ghost!{g}', vals.SeqVal)
+            for g in self.ghost_names:
+                self.ghost_seq(it, g)
             for text in list(c['requires']) + list(c.get('assumes', [])) + list(extra_requires):
                 v = self.eval_spec(it, text, env, ctx)
                 it.assume(vals.truthy(v.t))
@@ -859,6 +883,8 @@ SPECIAL_GLOBALS = {('frappy/lib/__init__.py', 'generalConfig'): 'frappy.lib.gene
 
 
 def _static_ty(ty):
+    if isinstance(ty, str):
+        ty = ty.replace('|none', '')
     if ty in (None, 'any', 'int', 'float', 'bool', 'str', 'bytes', 'number', 'tuple', 'list', 'dict', 'set', 'none'):
         return None
     return ty
